@@ -15,6 +15,7 @@ func init() {
 }
 
 func c05(c *q.Ctx) {
+	poolMapOwner(c)
 	blockCacheCoherent(c)
 	keyLockProtocol(c)
 	const st = "bcs/ledger/xledger/state::"
